@@ -13,7 +13,7 @@ use crate::spec::{ref_path_match, Item, Spec, Ty};
 pub static DEF: PropDef = PropDef {
     id: "C13",
     level: "exploration",
-    rule: "each case runs five sub-monitors on the real iterator. (a) single-fault documents: a valid document (reference encoded, known and unknown sizes) receives exactly one fault of a known class at a random eligible element — id replaced by an id outside the specification / a known element inserted under a known-size parent that does not allow it / a leaf's declared size enlarged to overrun its known-size parent / a size limit set just below the first element that exceeds it — and the strict parse must yield exactly the items before the faulty element and then that class's error kind carrying the element's offset and id, with no raw tag among the Ok items; (c) the same document parsed while tolerating each OTHER single class must fail identically; with the faulty class tolerated that error kind must not occur; (b) on all inputs of (e), a parse that tolerates class X must never end in X's error kind; (d) a header declaring 4*10^9+1 bytes (5-8 byte size fields, at root, inside known- and unknown-size masters) is rejected with InvalidTagSize under all 8 tolerance settings while the size limit was never touched, and once the limit is removed (None) or raised the same master must be accepted; (e) arbitrary inputs that start at a root element (valid, truncated, mutated, adversarial) are parsed under all 8 tolerance subsets: the strict Ok items (values and offsets) must be a prefix of every more tolerant parse. distinct = (fault class x tolerated set) pairs and (input kind x first strict error kind); non-trivial iff the fault is not at the first element / the strict parse has >= 2 items.",
+    rule: "each case runs five sub-monitors on the real iterator. (a) single-fault documents: a valid document (reference encoded, known and unknown sizes) receives exactly one fault of a known class at a random eligible element — id replaced by an id outside the specification / a known element inserted under a known-size parent that does not allow it / a leaf's declared size enlarged to overrun its known-size parent / a size limit set just below the first element that exceeds it — and the strict parse must yield exactly the items before the faulty element and then that class's error kind carrying the element's offset and id, with no raw tag among the Ok items; (c) the same document parsed while tolerating each OTHER single class must fail identically; with the faulty class tolerated that error kind must not occur; (b) on all inputs of (e), a parse that tolerates class X must never end in X's error kind; (d) a header declaring more than the limit in force — the untouched default 4*10^9 in half of the cases, else 2^16 or 2^20 set explicitly; declared sizes from a lattice around every vint-width boundary above the limit (2^(7k)-2, 2^(7k)-1, 2^(7k), 2^(7k)+1 for k <= 7), next to 4*10^9 and the largest 8-byte value, in every field width that can hold them; at root, inside known- and unknown-size masters — is rejected with InvalidTagSize under all 8 tolerance settings, and once the limit is removed (None) or raised the same master must be accepted; (e) arbitrary inputs that start at a root element (valid, truncated, mutated, adversarial) are parsed under all 8 tolerance subsets: the strict Ok items (values and offsets) must be a prefix of every more tolerant parse. distinct = (fault class x tolerated set) pairs and (input kind x first strict error kind); non-trivial iff the fault is not at the first element / the strict parse has >= 2 items.",
     assumptions: &["reference encoder/layout", "hierarchy faults are inserted under known-size parents (or at root level) so that no unknown-size closing semantics can legitimise them", "in (d) a runaway allocation is caught by the allocator ceiling (1 GiB) and reported by the supervisor"],
     cases_quick: 150_000,
     cases_thorough: 2_000_000,
@@ -242,7 +242,16 @@ fn run(c: &mut Case) {
                 };
                 for allow in 0u8..8 {
                     let cfg = RCfg { allow, buffered: vec![], capacity: None, max_size: MaxSz::Set(Some(f.limit)), eof_end: true };
-                    let p = parse_slice(&f.bytes, &cfg);
+                    // a third of the parses read through a scripted source (short reads, small initial capacity): which error
+                    // is reported must not depend on how the bytes arrive
+                    let p = if c.rng.chance(1, 3) {
+                        let src = super::c05::random_source(&mut c.rng, &f.bytes);
+                        let cap = *c.rng.pick(&[None, Some(0usize), Some(16), Some(100)]);
+                        c.count("fault_parses_with_short_reads");
+                        crate::rd::parse_scripted(src, &RCfg { capacity: cap, ..cfg.clone() }).0
+                    } else {
+                        parse_slice(&f.bytes, &cfg)
+                    };
                     c.eval();
                     c.count("fault_x_tolerance_pairs");
                     let tolerated = bit != 0 && allow & bit != 0;
@@ -291,8 +300,26 @@ fn run(c: &mut Case) {
     {
         let spec = gen::z_kitchen(false);
         spec.install();
-        let w = c.rng.urange(5, 8);
-        let big: u64 = 4_000_000_000 + 1 + *c.rng.pick(&[0u64, 1, 1000, 1 << 33]);
+        // the limit in force: the untouched default (4*10^9) or one set explicitly; the declared size comes from a
+        // lattice around every vint-width boundary above that limit (2^(7k)-2, 2^(7k)-1 — which needs the next wider
+        // field and looks like a narrower field's reserved pattern —, 2^(7k), 2^(7k)+1), the values next to the default
+        // limit, and the largest 8-byte value; the field is any width that can hold it
+        let (limit_mode, limit): (MaxSz, u64) = match c.rng.below(4) {
+            0 => (MaxSz::Set(Some(1 << 16)), 1 << 16),
+            1 => (MaxSz::Set(Some(1 << 20)), 1 << 20),
+            _ => (MaxSz::Default, 4_000_000_000),
+        };
+        let big: u64 = loop {
+            let v = match c.rng.below(4) {
+                0 => 4_000_000_000 + 1 + *c.rng.pick(&[0u64, 1, 1000, 1 << 33]),
+                1 => (1u64 << 56) - 2 - c.rng.below(2),
+                _ => ((1u64 << (7 * c.rng.urange(2, 7))) as i64 + *c.rng.pick(&[-2i64, -1, -1, 0, 1])) as u64,
+            };
+            if v > limit {
+                break v;
+            }
+        };
+        let w = c.rng.urange(crate::refcodec::min_size_width(big).unwrap(), 8);
         let where_ = c.rng.below(3);
         let leaf_id: u64 = *c.rng.pick(&[0x63A2u64, 0x536E, 0xEC]); // Priv (Binary), Name (Utf8) under Seg/Tracks/Entry ; Void
         let mut bytes = Vec::new();
@@ -316,10 +343,13 @@ fn run(c: &mut Case) {
         bytes.extend(enc_vint(big, w));
         bytes.extend(c.rng.bytes(16));
         for allow in 0u8..8 {
-            let cfg = RCfg { allow, buffered: vec![], capacity: None, max_size: MaxSz::Default, eof_end: true };
+            let cfg = RCfg { allow, buffered: vec![], capacity: None, max_size: limit_mode, eof_end: true };
             let p = parse_slice(&bytes, &cfg);
             c.eval();
             c.count("default_limit_probes");
+            if limit_mode != MaxSz::Default {
+                c.count("explicit_limit_probes");
+            }
             // where_ == 1: the first master itself declares > 4e9 and must already be rejected
             let (exp_off, exp_id) = if where_ == 1 { (0usize, chain[0]) } else { (off, lid) };
             let exp_items = if where_ == 1 { 0 } else { prefix_items };
@@ -327,7 +357,7 @@ fn run(c: &mut Case) {
             if !ok {
                 c.violation(
                     format!("C13/default-limit/{}/allow{}/got-{}", ["root", "inside-known-size", "inside-unknown-size"][where_ as usize], allow, match &p.end { Ev::Err(e) => e.kind().to_string(), Ev::None => "clean".into(), Ev::Caught(cg) => cg.sig(), _ => "?".into() }),
-                    format!("a declared size of {} bytes must be rejected with InvalidTagSize while the default limit is in force; got {} after {} items", big, p.end.short(), p.items.len()),
+                    format!("a declared size of {} bytes ({}-byte field) must be rejected with InvalidTagSize while the limit {} is in force; got {} after {} items", big, w, limit, p.end.short(), p.items.len()),
                     J::obj().set("bytes", J::hex(&bytes)).set("config", cfg.to_json()).set("parse", p.to_json(10)),
                 );
             }
